@@ -71,6 +71,9 @@ class SimFS:
         self.exit_mode = exit_mode
         self.ops = []  # (kind, relpath, nbytes)
         self.crashed = False
+        self.error_at = None  # set of op indices whose syscall fails with ENOSPC
+        self.errors_fired = 0
+        self.on_error = None
         self._die_after = False
         self.fds = {}  # raw fds handed out by os.open -> path
         self.simfiles = {}  # fd -> SimFile (for sendfile / copy_file_range into our files)
@@ -100,6 +103,14 @@ class SimFS:
             raise SimCrash()
         idx = len(self.ops)
         self.ops.append((kind, self.rel(path) if path is not None else None, nbytes))
+        if self.error_at is not None and idx in self.error_at:
+            # disk fault: this system call fails (disk full / I/O error); the process lives on
+            import errno
+
+            self.errors_fired += 1
+            if self.on_error is not None:
+                self.on_error()
+            raise DiskFault(errno.ENOSPC, "No space left on device (injected)", os.fspath(path) if path is not None else None)
         if self.crash_at is not None and idx == self.crash_at[0]:
             if kind == "write":
                 return min(nbytes, max(0, int(self.crash_at[1])))
